@@ -2,10 +2,12 @@
 //! simctl — deterministic simulation harness for anytls-rs (see /verif/DESIGN.md).
 mod checks;
 mod common;
+mod fixtures;
 mod refcodec;
 mod runner;
 mod sim;
 mod tiera;
+mod tierb;
 
 fn usage() -> ! {
     eprintln!("usage: simctl check <Cxx> <quick|thorough> | worker … | minimize … | replay <file> | selftest [Cxx] | list");
@@ -25,6 +27,7 @@ fn main() {
         }
     };
     match args.get(1).map(|s| s.as_str()) {
+        Some("gen-fixtures") => fixtures::generate(),
         Some("list") => {
             for c in &checks {
                 println!("{}", c.id());
